@@ -5,6 +5,12 @@ use super::BytesStrategy;
 impl<T: BytesVecValue> RawStrategy<T> for BytesStrategy<T> {
     #[inline(always)]
     unsafe fn read_from_ptr(ptr: *const u8, byte_offset: usize) -> T {
+        #[cfg(feature = "verif")]
+        crate::verif::access(
+            ptr.wrapping_add(byte_offset),
+            size_of::<T>(),
+            "BytesStrategy::read_from_ptr",
+        );
         unsafe {
             if T::IS_NATIVE_LAYOUT {
                 (ptr.add(byte_offset) as *const T).read_unaligned()
